@@ -15,6 +15,12 @@ CHECKS = {
             "shape x zero pattern x stored order determines the execution path.",
             "Trusted: mc/refmodel.py (matricization formula, Kruskal/Tucker value by einsum); arrays <= 24 cells, order <= 5.",
             TECH_PRODUCT, "DESIGN.md §6 C01"),
+    "C07": ("permute by all N! orders, reshape to every ordered factorisation of the cell count (and, sparse, of every "
+            "sorted proper subset of modes), squeeze, and the inverse composites are executed on every holder (dense, sparse "
+            "in all stored orders, Kruskal, Tucker dense/sparse core) of every array in scope and compared exactly with the "
+            "loop-level index formula; index maps are value-oblivious, so the scope covers every path.",
+            "Trusted: mc/refmodel.py permute/reshape_f/squeeze loops; arrays <= 24 cells, order <= 4 (5 for permute).",
+            TECH_PRODUCT, "DESIGN.md §6 C07"),
 }
 PENDING = {f"C{i:02d}": "check not built yet in this phase (planned, see DESIGN.md §6)" for i in range(1, 21) if f"C{i:02d}" not in CHECKS}
 NOT_APPLICABLE = {}
